@@ -17,7 +17,10 @@ Three monitors (DESIGN.md section 2, C09):
      chain, generated tool chain file mutating `environ`, install dirs, library
      mode, compdb, project-defined arguments), then `regenerate` under E1 and
      under a perturbed ambient E2 (other CC/CFLAGS/PATH/junk/HOME/cwd/relative
-     build path), `env`, `run -- env -0`, `run -I -- env -0` under E2.
+     build path), then the LAZY mode the generated build file itself uses:
+     `regenerate --lazy` twice and twice triggered by the back end (an input
+     made newer, `make Makefile` / reference `ninja build.ninja`), under E1/E2;
+     then `env`, `run -- env -0`, `run -I -- env -0` under E2.
      Oracles: build files byte-identical across the three generations; the
      snapshot holds what was chosen; env/run print the variables predicted by a
      plain-dict model of the tool chain file applied to E1 (-I: E1 itself).
@@ -44,9 +47,13 @@ RULE = ('ops: seeded sequences of 1-30 operations (setitem, delitem, pop, popite
         'modes x compdb x extra_args x tool chain path x target platform/arch x '
         'backend and (un)detected backend version x mopack files x variables '
         '(arbitrary names/values) mutated by an ops sequence; each loaded at format '
-        'versions 17..4; distinct = the configuration.  e2e: one real configure + 2 '
-        'regenerates + env + 2 runs per case over {4 configure call forms} x {tool '
-        'chain file of 0-10 environ operations/builtins} x install dirs x library '
+        'versions 17..4; distinct = the configuration.  e2e: one real configure, 2 '
+        'plain regenerates, 2 `regenerate --lazy`, 2 regenerations triggered by the back '
+        'end itself (an input made newer, then `make Makefile` / reference `ninja '
+        'build.ninja`), each under E1 or E2, then env + 2 runs per case over {4 configure call forms} x {tool '
+        'chain file of 0-12 environ operations/builtins, 80% ending in a value derived '
+        'from the previous value (append/prepend/conditional/toggle) of a variable the '
+        'build files show} x install dirs x library '
         'mode x compdb x project arguments x E1 variables x E2 perturbation (CC, '
         'flags, PATH order/decoys/minimal, junk, unset, HOME, locale, MAKE) x cwd x '
         'relative/absolute build path; distinct = the case, non-trivial = E2 differs '
@@ -83,13 +90,17 @@ def floors(tier):
         'rt:roundtrips': 100 if q else 2000,
         'rt:old-version-loads': 500 if q else 10000,
         'rt:calibration-v4-shape': 1,
-        'e2e:configure': 50 if q else 500,
-        'e2e:regenerate-E2': 50 if q else 500,
-        'e2e:files-compared': 200 if q else 2000,
-        # a case stops at a regeneration that does not reproduce the build files
-        'e2e:env': 25 if q else 300,
-        'e2e:run': 25 if q else 300,
-        'e2e:run-initial': 25 if q else 300,
+        'e2e:configure': 40 if q else 400,
+        'e2e:regenerate-plain': 80 if q else 800,
+        'e2e:regenerate-lazy-cli': 70 if q else 700,
+        'e2e:regenerate-lazy-backend': 50 if q else 500,
+        'e2e:backend-triggered-regeneration': 50 if q else 500,
+        'e2e:regenerate-E2': 100 if q else 1000,
+        'e2e:toolchain-derived-ops': 25 if q else 250,
+        'e2e:files-compared': 500 if q else 5000,
+        'e2e:env': 30 if q else 300,
+        'e2e:run': 30 if q else 300,
+        'e2e:run-initial': 30 if q else 300,
         'mon:subject-reports': 200 if q else 2000,
         'mon:subject-evals': 600 if q else 6000,
         'mon:toolchain-mutations': 300 if q else 3000,
@@ -922,6 +933,13 @@ def gen_tc_ops(rng, sensitive):
             ops.append(['which_resolve', rng.choice(['MYVAR', 'TC_W']), 'mytool'])
         else:
             ops.append(['which_strict', rng.choice(['MYVAR', 'TC_W']), 'vcc'])
+    if rng.random() < 0.8:
+        # at least one value derived from the previous value of a variable the
+        # build files show (GLOBAL_CFLAGS / GLOBAL_LDFLAGS / the `showvar`
+        # command line), placed last so that nothing overwrites it: replaying
+        # the file on anything but the initial variables is then visible
+        for _ in range(rng.choice([1, 1, 2])):
+            ops.append(gen_derived_op(rng))
     if rng.random() < 0.4:
         dirs = {}
         for n in rng.sample(['prefix', 'bindir', 'libdir', 'includedir', 'datadir'],
@@ -929,6 +947,25 @@ def gen_tc_ops(rng, sensitive):
             dirs[n] = '<S>/inst/tc ' + n
         ops.append(['install_dirs', dirs])
     return ops
+
+
+DERIVED = ('append', 'prepend', 'cond_append', 'toggle')
+
+
+def gen_derived_op(rng):
+    k = rng.choice(['CFLAGS', 'CFLAGS', 'LDFLAGS', 'MYVAR', 'lower.var-é'])
+    flag = k in FLAGVARS
+    r = rng.random()
+    if r < 0.4:
+        return ['append', k, rng.choice([' -DAPP=1', ' -g'] if flag else
+                                        [' x', ':/opt/app'])]
+    if r < 0.7:
+        return ['prepend', k, rng.choice(['-DPRE=1 ', '-Wall '] if flag else
+                                         ['/opt/pre:', 'p '])]
+    if r < 0.9:
+        return ['cond_append', k, rng.choice(['-DFIRST'] if flag else ['first']),
+                rng.choice([' -DAGAIN'] if flag else [' again'])]
+    return ['toggle', rng.choice(['MYVAR', 'lower.var-é'])]
 
 
 def render_tc(ops):
@@ -952,6 +989,13 @@ def render_tc(ops):
         elif n == 'append':
             L.append('environ[%s] = environ.get(%s, "") + %s' %
                      (r(op[1]), r(op[1]), r(op[2])))
+        elif n == 'prepend':
+            L.append('environ[%s] = %s + environ.get(%s, "")' %
+                     (r(op[1]), r(op[2]), r(op[1])))
+        elif n == 'cond_append':
+            L.append('if %s not in environ:\n    environ[%s] = %s\nelse:\n'
+                     '    environ[%s] = environ[%s] + %s' %
+                     (r(op[1]), r(op[1]), r(op[2]), r(op[1]), r(op[1]), r(op[3])))
         elif n == 'toggle':
             L.append('if %s in environ:\n    del environ[%s]\nelse:\n'
                      '    environ[%s] = "on"' % (r(op[1]), r(op[1]), r(op[1])))
@@ -1014,6 +1058,10 @@ def model_tc(ops, start, pathdirs):
             v.setdefault(op[1], op[2])
         elif n == 'append':
             v[op[1]] = v.get(op[1], '') + op[2]
+        elif n == 'prepend':
+            v[op[1]] = op[2] + v.get(op[1], '')
+        elif n == 'cond_append':
+            v[op[1]] = op[2] if op[1] not in v else v[op[1]] + op[3]
         elif n == 'toggle':
             if op[1] in v:
                 del v[op[1]]
@@ -1115,7 +1163,9 @@ def gen_e2e(rng, idx):
     ])
     return {
         'kind': 'e2e', 'idx': idx, 'backend': backend,
-        'srcname': rng.choice(['src', 's r c', 'pröj']),
+        # a space in srcdir breaks the Make back end's own regeneration rule
+        # (C04's business), so it is the rarer choice
+        'srcname': rng.choice(['src', 'pröj', 'src', 'pröj', 's r c']),
         'buildname': rng.choice(['build', 'b d', 'b-é', 'src/../bld']),
         'tcname': rng.choice(['tc.bfg', 'tool chain.bfg', 'sub/tü.bfg']),
         'tc_arg': rng.choice(['abs', 'rel']),
@@ -1125,6 +1175,10 @@ def gen_e2e(rng, idx):
         'cwd2': rng.choice(['root', 'scratch', 'builddir', 'srcdir', 'home2']),
         'bdarg2': rng.choice(['abs', 'rel']),
         'regen_alias': rng.random() < 0.15,
+        'lazy_order': rng.choice([['E1', 'E2'], ['E2', 'E1'], ['E2', 'E2']]),
+        'backend_order': rng.choice([['E1', 'E2'], ['E2', 'E1'], ['E2', 'E2']]),
+        'touch': rng.choice(['build.bfg', 'build.bfg', 'options.bfg']),
+        'backend_first': rng.random() < 0.5,
     }
 
 
@@ -1379,12 +1433,55 @@ def _run_e2e(case, res, S):
     regen = 'refresh' if case['regen_alias'] else 'regenerate'
     wit.update(e2_set=_sub(case['e2']['set'], S), e2_unset=case['e2']['unset'],
                e2_path=path2, e1_path=path1, cwd2=cwd2, builddir_arg=bdarg2)
-    stages = [('E1', [bfg, 'regenerate', bd], src, e1),
-              ('E2', [bfg, regen, bdarg2], cwd2, e2)]
+    # plain regenerations, then LAZY ones (the mode the generated build file
+    # itself uses): twice through the CLI, twice triggered by the back end
+    # after an input became newer.  Drift accumulates, so every stage is
+    # compared with the one before, which transitively is the configure's.
+    envs = {'E1': (e1, src, bd), 'E2': (e2, cwd2, bdarg2)}
+    stages = [{'name': 'E1', 'mode': 'plain', 'argv': [bfg, 'regenerate', bd]},
+              {'name': 'E2', 'mode': 'plain', 'argv': [bfg, regen, bdarg2]}]
+    lazy_cli, lazy_backend = [], []
+    for name in case.get('lazy_order', ['E1', 'E2']):
+        lazy_cli.append({'name': name, 'mode': 'lazy-cli',
+                         'argv': [bfg, 'regenerate', '--lazy', envs[name][2]]})
+    for name in case.get('backend_order', ['E2', 'E1']):
+        if backend == 'make':
+            argv_b = ['/usr/bin/make', '--no-print-directory', 'Makefile']
+        else:
+            argv_b = [os.path.join(core.BIN, 'ninja'), 'build.ninja']
+        lazy_backend.append({'name': name, 'mode': 'lazy-backend', 'argv': argv_b,
+                             'touch': case.get('touch', 'build.bfg')})
+    stages += (lazy_backend + lazy_cli if case.get('backend_first')
+               else lazy_cli + lazy_backend)
     prev_files, prev_snap, prev_name, prev_raw = F0, S0, 'configure', raw0
-    for name, argv2, cwd_, env_ in stages:
-        rc, out = core.run(argv2, cwd=cwd_, env=env_, timeout=120)
+    environ_file = os.path.join(bd, '.bfg_environ')
+    for st in stages:
+        name, mode = st['name'], st['mode']
+        env_, cwd_ = envs[name][0], envs[name][1]
+        if mode == 'lazy-backend':
+            # the back end decides by itself: make an input newer than every
+            # output, then ask it for the build file only (nothing is compiled)
+            cwd_ = bd
+            proj.bump(os.path.join(src, st['touch']), bd)
+            before_ns = os.stat(environ_file).st_mtime_ns
+            proj.settle()
+        rc, out = core.run(st['argv'], cwd=cwd_, env=env_, timeout=120)
+        if mode == 'lazy-backend':
+            ran = os.stat(environ_file).st_mtime_ns != before_ns
+            if rc != 0 and 'unable to reload environment' not in out:
+                # how the back end reads its own rule (spaces in srcdir, ...)
+                # is the business of C04/C08
+                res.exclude('back end could not run its regeneration rule')
+                res.ev('e2e:note:backend-rule-failed')
+                continue
+            if rc == 0 and not ran:
+                res.exclude('back end saw no reason to regenerate')
+                res.ev('e2e:note:backend-not-triggered')
+                continue
+            res.ev('e2e:backend-triggered-regeneration')
         res.ev('e2e:regenerate-' + name)
+        res.ev('e2e:regenerate-%s-%s' % (mode, name))
+        res.ev('e2e:regenerate-' + mode)
         Fn = read_files(bd)
         rawn, Sn = read_snapshot(bd)
         problem = None
@@ -1408,8 +1505,9 @@ def _run_e2e(case, res, S):
                        if problem is None else 'e2e:note:snapshot-bytes-differ')
         if problem is not None:
             mech = classify_regen(problem, name, case, Sn, S0, want_cur, alt_cur,
-                                  which_keys, e2, sensitive)
+                                  which_keys, e2, sensitive, mode)
             res.violate(mech, dict(wit, stage='regenerate-under-' + name,
+                                   mode=mode, command=st['argv'][1:],
                                    compared_with=prev_name, **problem[1],
                                    variables_after={
                                        k: v for k, v in
@@ -1421,8 +1519,8 @@ def _run_e2e(case, res, S):
                                        != v}))
             collect_monitors(res, [mon1, mon2], wit, case)
             return
-        prev_files, prev_snap, prev_name, prev_raw = Fn, Sn, 'regenerate-' + name, \
-            rawn
+        prev_files, prev_snap, prev_raw = Fn, Sn, rawn
+        prev_name = '%s-regenerate-%s' % (mode, name)
 
     # ---- env / run under E2
     env_bin = '/usr/bin/env'
@@ -1463,13 +1561,15 @@ def _run_e2e(case, res, S):
                         'e2e:undetectable-make=%s' % ('MAKE' in case['e1'])])
     for op in tc_ops:
         res.classes.add('tc:' + op[0])
+        if op[0] in DERIVED:
+            res.ev('e2e:toolchain-derived-ops')
     res.sample = {'kind': 'e2e', 'configure': argv[1:], 'toolchain':
                   wit['toolchain'], 'E2': wit['e2_set'], 'E2_PATH': path2,
                   'cwd2': cwd2, 'builddir_arg': bdarg2}
 
 
 def classify_regen(problem, stage, case, Sn, S0, want_cur, alt_cur, which_keys, e2,
-                   sensitive):
+                   sensitive, mode='plain'):
     """Why did a regeneration not reproduce the configuration?  Computed from
     what was observed (classification only; the verdict is the byte compare)."""
     kind, detail = problem
@@ -1479,24 +1579,24 @@ def classify_regen(problem, stage, case, Sn, S0, want_cur, alt_cur, which_keys, 
     if kind == 'exit-status':
         if stage == 'E2' and sensitive and 'unable to find' in detail['output']:
             return ('e2e', 'toolchain-which-searches-ambient-PATH')
-        return ('e2e', 'regenerate-failed', stage)
+        return ('e2e', 'regenerate-failed', stage, mode)
     if differing:
         if stage == 'E2' and sensitive and \
            all(k in which_keys and cur.get(k) == alt_cur.get(k) for k in differing):
             return ('e2e', 'toolchain-which-searches-ambient-PATH')
         if stage == 'E2' and any(k in e2 and cur.get(k) == e2[k] for k in differing):
-            return ('e2e', 'variables-not-restored', 'ambient-value-leaked')
-        return ('e2e', 'variables-not-restored', 'toolchain-replay-differs')
+            return ('e2e', 'variables-not-restored', 'ambient-value-leaked', mode)
+        return ('e2e', 'variables-not-restored', 'toolchain-replay-differs', mode)
     if 'MAKE' in case['e1'] and S0['data'].get('backend_version') == 'None':
         return ('snapshot', 'backend_version', 'None-not-preserved')
     if kind == 'snapshot-differs':
-        return ('e2e', 'snapshot-differs', detail['fields'][0])
+        return ('e2e', 'snapshot-differs', detail['fields'][0], mode)
     text = detail.get('second', '')
     for k in ('CC', 'CFLAGS', 'CPPFLAGS', 'LDFLAGS', 'LDLIBS', 'MYVAR'):
         if stage == 'E2' and k in e2 and e2[k] and e2[k] in text and \
            e2[k] not in detail.get('first', ''):
-            return ('e2e', 'buildfile-differs', 'ambient-value-leaked')
-    return ('e2e', 'buildfile-differs', detail.get('file', '?'))
+            return ('e2e', 'buildfile-differs', 'ambient-value-leaked', mode)
+    return ('e2e', 'buildfile-differs', detail.get('file', '?'), mode)
 
 
 def env_mechanism(cmd, rc, got_lines, want_lines, e2):
@@ -1538,7 +1638,7 @@ def collect_monitors(res, logs, wit, case):
 
 def cases(tier, seed):
     q = tier == 'quick'
-    n_e2e = 64 if q else 640
+    n_e2e = 48 if q else 480
     n_rt, rt_chunk = (160, 20) if q else (3200, 50)
     n_seq, seq_chunk = (1200, 100) if q else (24000, 500)
     rng = core.rng_for(seed, 'c09', 'rt')
